@@ -42,3 +42,8 @@ Definition post_entry (fl : kflags) (s : ipstate) (pods : list (str * str)) (ip 
       | RReleased => filter (fun a => negb (str_eqb (fst a) ip)) s
       | _ => s
       end).
+
+(** one POST with several entries: handled one after the other, each on its own; reported unreleased (HTTP 202) as soon as one was not released *)
+Definition post_entries (fl : kflags) (s : ipstate) (pods : list (str * str)) (es : list (str * entry)) : bool * ipstate :=
+  fold_left (fun acc e => let '(o, s') := post_entry fl (snd acc) pods (fst e) (snd e) in
+                          (fst acc || rel_reported_unreleased o, s')) es (false, s).
